@@ -1,120 +1,76 @@
 /-
-Helper lemmas for C10_Refine, part 4: one `push` on a quiescent state that
-satisfies `QOk` with budget left.
+Helper lemmas for C10_LooseRefine, part 2: `push` under the loose relation — any
+`cull_limit`, an expiry time on the pushed item allowed: the lazy cull of the write may remove
+expired rows from every queue (`Thinned`), and the number of the new item is whatever the cache
+picks (`last physical key ± 1`); the reference is told (`QSpec.pushAt`).
 -/
-import DC.Proofs.QRefineSteps
+import DC.Proofs.QLooseSteps
 
 namespace DC.Cache
 open DC.Spec DC.QSpec
 
-/-- `_cull` without size-based eviction removes the expired page and nothing else -/
-theorem qr_cullW_none (t : Cache) (now : Int) (hasc : RowidsAsc t.rows) (hp : t.cfg.policy = .none) :
-    (t.cullW now).1.rows = t.rows.filter (fun r => decide (r ∉ t.selExpired now t.cfg.cullLimit)) := by
-  obtain ⟨R1, P, hR1, -, h | ⟨hne, -, -⟩⟩ := cullW_spec t now hasc
-  · rw [h, hR1]
-  · exact absurd hp hne
+/-- rows of one queue with well-formed keys are told apart by their numbers -/
+theorem rows_num_inj {R : List Row} (hu : KeysUnique R) (hn : ∀ r ∈ R, r.key ≠ .null) (p : Option Str)
+    {L : List Row} (hsub : ∀ r ∈ L, r ∈ R)
+    (hk : ∀ r ∈ L, r.raw = true ∧ ∃ m, queueNum r.key = some m ∧ queueKey p m = r.key) :
+    ∀ x ∈ L, ∀ y ∈ L, (queueNum x.key).getD 0 = (queueNum y.key).getD 0 → x = y := by
+  intro x hx y hy he
+  obtain ⟨rx, mx, h1, h2⟩ := hk x hx
+  obtain ⟨ry, my, h3, h4⟩ := hk y hy
+  rw [h1, h3] at he
+  simp only [Option.getD_some] at he
+  subst he
+  have hkey : x.key = y.key := by rw [← h2, ← h4]
+  have hsx : keyMatch x.key true x = true := by simp [keyMatch, eqv_self (hn x (hsub x hx)), rx]
+  have hsy : keyMatch x.key true y = true := by
+    rw [hkey]; simp [keyMatch, eqv_self (hn y (hsub y hy)), ry]
+  exact keysUnique_eq hu (hsub x hx) (hsub y hy) hsx hsy
 
-theorem qr_selExpired_zero (t : Cache) (now : Int) (h : t.cfg.cullLimit = 0) :
-    t.selExpired now t.cfg.cullLimit = [] := by
-  unfold selExpired; simp [h]
-
-/-- an unexpired row is not on the expired page -/
-theorem qr_not_selExpired {t : Cache} {now : Int} {n : Nat} {x : Row} (h : expired now x = false) :
-    decide (x ∉ t.selExpired now n) = true := by
-  simp only [decide_eq_true_eq]
-  intro hc
-  have := (selExpired_mem hc).2
-  rw [h] at this; cases this
-
-theorem expired_of_expT_none {now : Int} {x : Row} (h : x.expT = none) : expired now x = false := by
-  unfold expired; rw [h]
-
-/-- the number `push` picks is the specification's, and it leaves room for `n` more pushes -/
-theorem qr_pushNum {c : Cache} {n : Nat} (hok : QOkL c (n + 1)) (p : Option Str) (back : Bool) :
-    pushNum c p back = some (nextNum c.cfg back (absQueue c p)) ∧
-    1 + (n : Int) ≤ nextNum c.cfg back (absQueue c p) ∧
-    nextNum c.cfg back (absQueue c p) + (n : Int) ≤ 999999999999998 := by
-  have he : (if back then lastRow? (c.queueRows p) else (c.queueRows p).head?) =
-      endOf (!back) (c.queueRows p) := by
-    unfold endOf lastRow?; cases back <;> rfl
-  unfold pushNum nextNum absQueue
-  rw [he, endOf_map]
-  cases hh : endOf (!back) (c.queueRows p) with
-  | none =>
-    have := hok.originN
-    simp only [Option.map_none]
-    refine ⟨by first | rfl | trivial, ?_, ?_⟩ <;> omega
-  | some r =>
-    have hr := endOf_mem hh
-    obtain ⟨m, h1, -, -, -⟩ := hok.qok p r hr
-    have hroom := hok.room p r hr m h1
-    simp only [Option.map_some, itemOfRow, h1, Option.getD_some]
-    cases back with
-    | true => simp only [if_true]; refine ⟨by first | rfl | trivial, ?_, ?_⟩ <;> omega
-    | false => simp only [Bool.false_eq_true, if_false]; refine ⟨by first | rfl | trivial, ?_, ?_⟩ <;> omega
-
-theorem qr_pushBody_unbindable (now : Int) (p : Option Str) (back : Bool) (c : Cols) (t : Cache)
-    {num : Int} (hn : pushNum t p back = some num) (hsel : t.selKey (queueKey p num) true = none)
-    (hb : (c.bindable && bindable (queueKey p num)) = false) :
-    (pushBody now p back c t).ok = false ∧ (pushBody now p back c t).out = .exc "UnicodeEncodeError" := by
-  unfold pushBody
-  rw [hn]
-  have hsel' : ((t.logSql "selQueueEnd").selKey (queueKey p num) true) = none := hsel
-  have : (!c.bindable || !bindable (queueKey p num)) = true := by
-    cases h1 : c.bindable <;> cases h2 : bindable (queueKey p num) <;> simp_all
-  simp only [hsel', Option.isSome_none, Bool.false_eq_true, if_false, this, if_true]
-  exact ⟨trivial, trivial⟩
-
-/-- a stream value (`read=True`) is stored as a binary file, which reads back -/
-theorem qr_place_readable (E : Externals) (dk : DiskKind) (mfs : Nat) (v : PyVal) (rd : Bool) (pl : Placement)
-    (h : place E dk mfs v rd = .ok pl) (eT : Option Int) (tg : SqlVal) :
-    drf_Readable (entryOf pl eT tg) := by
-  cases rd with
-  | false => exact drf_place_readable E dk mfs v pl h eT tg
-  | true =>
-    intro E' dk'
-    apply drf_fetch_ioerror
-    have h' : Disk.place E mfs v true = .ok pl := by
-      unfold place at h
-      cases dk <;> simpa using h
-    unfold Disk.place at h'
-    simp only [if_true] at h'
-    cases v <;> simp only at h' <;> cases h' <;>
-      simp [entryOf, Disk.fetch, MODE_RAW, MODE_BINARY]
-
-theorem QRefines.mono {c : Cache} {q : QSpec.State} {clock now : Int} (h : QRefines c q clock)
-    (hn : clock ≤ now) : QRefines c q now :=
-  ⟨h.queues, h.wf, h.ord, fun k hk => by
-    rw [holdsKey_iff]
-    exact rf_VRel_mono ((holdsKey_iff _ _ _ _).1 (h.dict k hk)) hn⟩
-
-/-- **one `push`**.  `n` is the budget left after it.
-`hq`: the lazy cull of this write must not be able to remove the item pushed — `cull_limit = 0`
-or no expiry time. -/
-theorem qr_push_step (c : Cache) (q : QSpec.State) (n : Nat) (clock now : Int) (E : Externals)
+/-- **one `push`, loosely**.  `num` is the number the cache gives the new item; it is the number
+of no item physically present in that queue — in particular of no live item.
+`httl`: the item is not pushed already expired (`expire ≥ 0`). -/
+theorem ql_push_step (c : Cache) (q : QSpec.State) (n : Nat) (clock now : Int) (E : Externals)
     (v : PyVal) (p : Option Str) (back : Bool) (ttl : Option Int) (read : Bool) (tag : SqlVal)
-    (hok : QOk c (n + 1)) (hr : QRefines c q clock) (hn : clock ≤ now)
-    (hq : c.cfg.cullLimit = 0 ∨ ttl = none) :
-    (c.push E now v p back ttl read tag).2 = (QSpec.push q E c.cfg now v p back ttl read tag).2 ∧
-    QRefines (c.push E now v p back ttl read tag).1 (QSpec.push q E c.cfg now v p back ttl read tag).1 now ∧
-    QOk (c.push E now v p back ttl read tag).1 n ∧ (c.push E now v p back ttl read tag).1.cfg = c.cfg := by
+    (hok : QOkL c (n + 1)) (hr : QLoose c q clock) (hn : clock ≤ now) (httl : TtlOk ttl) :
+    ∃ num : Int,
+      (c.push E now v p back ttl read tag).2 = (QSpec.pushAt q E c.cfg now v p back ttl read tag num).2 ∧
+      QLoose (c.push E now v p back ttl read tag).1 (QSpec.pushAt q E c.cfg now v p back ttl read tag num).1 now ∧
+      QOkL (c.push E now v p back ttl read tag).1 n ∧
+      (c.push E now v p back ttl read tag).1.cfg = c.cfg ∧
+      (∀ it ∈ absQueue c p, it.num ≠ num) := by
   have hg := hok.good
   have hg' := push_good c E now v p back ttl read tag hg
+  obtain ⟨hnum, hlo, hhi⟩ := qr_pushNum hok p back
+  refine ⟨nextNum c.cfg back (absQueue c p), ?_⟩
+  generalize nextNum c.cfg back (absQueue c p) = num at hnum hlo hhi ⊢
+  obtain ⟨num', hnum', hfit, -, hord⟩ := pushNum_spec c p back hg.tinv (hok.qok p) hok.origin
+  rw [hnum] at hnum'
+  cases hnum'
+  have h1 : 1 ≤ num := by omega
+  have h2 : num ≤ 999999999999998 := by omega
+  have hsel := selKey_new_none c p num h1 h2 back hord
+  have hfresh : ∀ it ∈ absQueue c p, it.num ≠ num := by
+    intro it hit
+    obtain ⟨r, hr', rfl⟩ := List.mem_map.1 hit
+    obtain ⟨m, hm1, hm2, -, -⟩ := hok.qok p r hr'
+    intro e
+    simp only [itemOfRow, hm1, Option.getD_some] at e
+    subst e
+    have := hord r hr'
+    rw [← hm2] at this
+    cases back <;> simp [SqlVal.lt_irrefl] at this
   have hst := rf_store c E v read hg.pi
-  unfold QSpec.push
+  unfold QSpec.pushAt
   cases hpl : place E c.cfg.disk c.cfg.minFileSize v read with
   | error e =>
     rw [hpl] at hst
     simp only at hst ⊢
     rw [push_eq, hst]
-    exact ⟨rfl, hr.mono hn, hok.mono, rfl⟩
+    exact ⟨rfl, hr.mono hn, hok.mono, rfl, hfresh⟩
   | ok pl =>
     rw [hpl] at hst
     obtain ⟨s1, c0, hst, hrows, hcfg, hP1, hfsub, hexp, htag, hval, hent1⟩ := hst
     simp only
-    rw [← hr.queues p]
-    obtain ⟨hnum, hlo, hhi⟩ := qr_pushNum hok.toL p back
-    generalize nextNum c.cfg back (absQueue c p) = num at hnum hlo hhi ⊢
     have hS : c.push E now v p back ttl read tag = s1.transact (fresh := c0.file)
         (pushBody now p back { c0 with expT := ttl.map (now + ·), tag := tag }) := by
       rw [push_eq, hst]
@@ -126,12 +82,6 @@ theorem qr_push_step (c : Cache) (q : QSpec.State) (n : Nat) (clock now : Int) (
     have hi1 : TableInv (s1.log .begin) := log_inv _ (store_inv hst hg.tinv).1
     have hnum1 : pushNum (s1.log .begin) p back = some num := by
       rw [pushNum_congr (s := c) (t := s1.log .begin) hrows hcfg]; exact hnum
-    obtain ⟨num', hnum', hfit, -, hord⟩ := pushNum_spec c p back hg.tinv (hok.qok p) hok.origin
-    rw [hnum] at hnum'
-    cases hnum'
-    have h1 : 1 ≤ num := by omega
-    have h2 : num ≤ 999999999999998 := by omega
-    have hsel := selKey_new_none c p num h1 h2 back hord
     have hsel1 : (s1.log .begin).selKey (queueKey p num) true = none := by
       rw [selKey_congr (s := c) (t := s1.log .begin) hrows]; exact hsel
     rw [rf_entryOf_tag, rf_entryOf_val pl _ none _ .null, ← hval]
@@ -172,7 +122,6 @@ theorem qr_push_step (c : Cache) (q : QSpec.State) (n : Nat) (clock now : Int) (
         qfilter_iff.2 ⟨by rw [hnewkey]; exact kfilter_queueKey p num h1 h2, hnewraw⟩
       have hU : KeysUnique (c.rows ++ [new]) := by rw [← hXrows]; exact hX.tbl.uniq
       have hNN : ∀ x ∈ c.rows ++ [new], x.key ≠ .null := by rw [← hXrows]; exact hX.tbl.nonnull
-      -- the cull keeps the new row and every queue row
       have hgexp : ∀ x, g x = false → expired now x = true ∧ c.cfg.cullLimit ≠ 0 := by
         intro x hx
         rw [← hgdef] at hx
@@ -181,113 +130,98 @@ theorem qr_push_step (c : Cache) (q : QSpec.State) (n : Nat) (clock now : Int) (
         intro h0
         have hz : ∀ t : Cache, t.selExpired now 0 = [] := by intro t; unfold selExpired; simp
         simp [hXcfg, h0, hz] at hx
-      have hgkeep : ∀ x, x.expT = none → g x = true := by
-        intro x hx
-        cases hgx : g x with
-        | true => rfl
-        | false =>
-          have := (hgexp x hgx).1
-          rw [expired_of_expT_none hx] at this; cases this
+      have hnewlive : expired now new = false := by
+        unfold expired
+        rw [hnewexp]
+        cases ht : ttl with
+        | none => rfl
+        | some d => have := httl d ht; simp only [Option.map_some, decide_eq_false_iff_not]; omega
       have hgnew : g new = true := by
         cases hgx : g new with
         | true => rfl
-        | false =>
-          obtain ⟨ha, hb'⟩ := hgexp new hgx
-          rcases hq with h0 | h0
-          · exact absurd h0 hb'
-          · rw [expired_of_expT_none (by rw [hnewexp, h0]; rfl)] at ha; cases ha
-      have hgq : ∀ p', ∀ x ∈ c.queueRows p', g x = true := by
-        intro p' x hx
-        cases hgx : g x with
-        | true => rfl
-        | false =>
-          obtain ⟨ha, hb'⟩ := hgexp x hgx
-          rcases hok.quiet with h0 | h0
-          · exact absurd h0 hb'
-          · rw [expired_of_expT_none (h0 p' x hx)] at ha; cases ha
-      -- the queues afterwards
+        | false => rw [(hgexp new hgx).1] at hnewlive; cases hnewlive
+      -- the queues afterwards: the queue with the new row at its end, culled
       have hQ : ∀ p', c'.queueRows p' =
-          if p' = p then (if back then c.queueRows p ++ [new] else new :: c.queueRows p)
-          else c.queueRows p' := by
+          (if p' = p then (if back then c.queueRows p ++ [new] else new :: c.queueRows p)
+          else c.queueRows p').filter g := by
         intro p'
         simp only [queueRows_eq]
         rw [hR, qrows_filter hU hNN]
+        congr 1
         by_cases hp : p' = p
         · subst hp
           rw [if_pos rfl]
           cases back with
           | true =>
             simp only [if_true]
-            rw [qrows_append_back new hU hNN p' hqnew (by
+            exact qrows_append_back new hU hNN p' hqnew (by
               intro x hx
               rw [← queueRows_eq] at hx
               have := hord x hx
               simp only [if_true] at this
               show x.key.lt new.key = true
-              rw [hnewkey]; exact this)]
-            rw [List.filter_eq_self]
-            intro x hx
-            rcases List.mem_append.1 hx with hx | hx
-            · exact hgq p' x (by rw [queueRows_eq]; exact hx)
-            · simp only [List.mem_singleton] at hx; subst hx; exact hgnew
+              rw [hnewkey]; exact this)
           | false =>
             simp only [Bool.false_eq_true, if_false]
-            rw [qrows_append_front new hU hNN p' hqnew (by
+            exact qrows_append_front new hU hNN p' hqnew (by
               intro x hx
               rw [← queueRows_eq] at hx
               have := hord x hx
               simp only [Bool.false_eq_true, if_false] at this
               show new.key.lt x.key = true
-              rw [hnewkey]; exact this)]
-            rw [List.filter_eq_self]
-            intro x hx
-            rcases List.mem_cons.1 hx with hx | hx
-            · subst hx; exact hgnew
-            · exact hgq p' x (by rw [queueRows_eq]; exact hx)
-        · rw [if_neg hp, qrows_append_notin _ _ _ (qfilter_other (Ne.symm hp) num hfit new hnewkey),
-            List.filter_eq_self]
-          intro x hx
-          exact hgq p' x (by rw [queueRows_eq]; exact hx)
-      -- the entries afterwards
+              rw [hnewkey]; exact this)
+        · rw [if_neg hp]
+          exact qrows_append_notin _ _ _ (qfilter_other (Ne.symm hp) num hfit new hnewkey)
+      -- the entries afterwards, read in the state `s1` (value file written, before the insert)
       have hfiles' : ∀ f ∈ c'.files, f ∈ s1.files := by
         intro f hf
         have := hF f hf
         rw [cullW_files] at this
         exact this
-      have hrows'sub : ∀ r ∈ c'.rows, r ∈ c.rows ∨ r = new := by
-        intro r hr'
-        rw [hR] at hr'
-        have := (List.mem_filter.1 hr').1
-        rcases List.mem_append.1 this with h | h
-        · exact .inl h
-        · exact .inr (List.mem_singleton.1 h)
       have hent' : ∀ r ∈ c'.rows, rf_ent c' r = rf_ent s1 r :=
         fun r hr' => rf_ent_mono hfiles' hP1.nodup (rf_good_ref hg' hr')
-      have hnewmem : new ∈ c'.rows := by
-        rw [hR]; exact List.mem_filter.2 ⟨by simp, hgnew⟩
-      have hentnew : rf_ent c' new = entryOf pl (ttl.map (now + ·)) tag := by
-        rw [hent' new hnewmem, hent1 new (by rw [← hnew]; rfl) (by rw [← hnew]; rfl) (by rw [← hnew]; rfl),
-          hnewexp]
+      have hentnew : rf_ent s1 new = entryOf pl (ttl.map (now + ·)) tag := by
+        rw [hent1 new (by rw [← hnew]; rfl) (by rw [← hnew]; rfl) (by rw [← hnew]; rfl), hnewexp]
         congr 1
         rw [← hnew]; rfl
-      have hitemnew : itemOfRow c' new = ⟨num, entryOf pl (ttl.map (now + ·)) tag⟩ := by
+      have hitem' : ∀ r ∈ c'.rows, itemOfRow c' r = itemOfRow s1 r := by
+        intro r hr'
+        unfold itemOfRow
+        rw [entryOfRow_eq, entryOfRow_eq, hent' r hr']
+      have hitemold : ∀ p', ∀ r ∈ c.queueRows p', itemOfRow s1 r = itemOfRow c r := by
+        intro p' r hr'
+        have hrr : r ∈ c.rows := by rw [queueRows_eq] at hr'; exact (mem_qrows.1 hr').1
+        unfold itemOfRow
+        rw [entryOfRow_eq, entryOfRow_eq, hentS r hrr]
+      have hitemnew : itemOfRow s1 new = ⟨num, entryOf pl (ttl.map (now + ·)) tag⟩ := by
         unfold itemOfRow
         rw [entryOfRow_eq, hentnew, hnewkey, queueNum_queueKey p num hfit]
         rfl
-      have hitemold : ∀ p', ∀ r ∈ c.queueRows p', itemOfRow c' r = itemOfRow c r := by
+      -- the rows of the queues before the cull
+      have hXsub : ∀ p', ∀ r ∈ (if p' = p then (if back then c.queueRows p ++ [new] else new :: c.queueRows p)
+          else c.queueRows p'), (r ∈ c.queueRows p' ∨ (p' = p ∧ r = new)) := by
         intro p' r hr'
-        have hrr : r ∈ c.rows := by rw [queueRows_eq] at hr'; exact (mem_qrows.1 hr').1
-        have hrc' : r ∈ c'.rows := by
-          rw [hR]; exact List.mem_filter.2 ⟨List.mem_append_left _ hrr, hgq p' r hr'⟩
-        unfold itemOfRow
-        rw [entryOfRow_eq, entryOfRow_eq, hent' r hrc', hentS r hrr]
-      have hAbs : ∀ p', absQueue c' p' =
-          if p' = p then (if back then absQueue c p ++ [⟨num, entryOf pl (ttl.map (now + ·)) tag⟩]
-            else ⟨num, entryOf pl (ttl.map (now + ·)) tag⟩ :: absQueue c p)
-          else absQueue c p' := by
+        by_cases hp : p' = p
+        · subst hp
+          simp only [if_true] at hr'
+          cases back with
+          | true =>
+            simp only [if_true] at hr'
+            rcases List.mem_append.1 hr' with h | h
+            · exact .inl h
+            · exact .inr ⟨rfl, List.mem_singleton.1 h⟩
+          | false =>
+            simp only [Bool.false_eq_true, if_false] at hr'
+            rcases List.mem_cons.1 hr' with h | h
+            · exact .inr ⟨rfl, h⟩
+            · exact .inl h
+        · rw [if_neg hp] at hr'; exact .inl hr'
+      have hXmap : ∀ p', (if p' = p then (if back then c.queueRows p ++ [new] else new :: c.queueRows p)
+          else c.queueRows p').map (itemOfRow s1) =
+          (if p' = p then (if back then absQueue c p ++ [⟨num, entryOf pl (ttl.map (now + ·)) tag⟩]
+            else ⟨num, entryOf pl (ttl.map (now + ·)) tag⟩ :: absQueue c p) else absQueue c p') := by
         intro p'
         unfold absQueue
-        rw [hQ p']
         by_cases hp : p' = p
         · subst hp
           simp only [if_true]
@@ -302,14 +236,55 @@ theorem qr_push_step (c : Cache) (q : QSpec.State) (n : Nat) (clock now : Int) (
             exact List.map_congr_left (hitemold p')
         · simp only [if_neg hp]
           exact List.map_congr_left (hitemold p')
-      refine ⟨hO, ⟨?_, hr.wf, hr.ord, ?_⟩, ?_, hC⟩
+      have hAbs : ∀ p', Thinned now (absQueue c' p')
+          (if p' = p then (if back then absQueue c p ++ [⟨num, entryOf pl (ttl.map (now + ·)) tag⟩]
+            else ⟨num, entryOf pl (ttl.map (now + ·)) tag⟩ :: absQueue c p) else absQueue c p') := by
+        intro p'
+        have e1 : absQueue c' p' = ((if p' = p then (if back then c.queueRows p ++ [new] else new :: c.queueRows p)
+            else c.queueRows p').filter g).map (itemOfRow s1) := by
+          unfold absQueue
+          rw [← hQ p']
+          apply List.map_congr_left
+          intro r hr'
+          rw [queueRows_eq] at hr'
+          exact hitem' r (mem_qrows.1 hr').1
+        rw [e1, ← hXmap p']
+        apply thinned_map_filter
+        · have hkk : ∀ r ∈ (if p' = p then (if back then c.queueRows p ++ [new] else new :: c.queueRows p)
+              else c.queueRows p'), r.raw = true ∧ ∃ m, queueNum r.key = some m ∧ queueKey p' m = r.key := by
+            intro r hr'
+            rcases hXsub p' r hr' with h | ⟨hp, rfl⟩
+            · obtain ⟨m, a1, a2, -, -⟩ := hok.qok p' r h
+              rw [queueRows_eq] at h
+              exact ⟨qfilter_raw (mem_qrows.1 h).2, m, a1, a2⟩
+            · subst hp
+              exact ⟨hnewraw, num, by rw [hnewkey]; exact queueNum_queueKey p' num hfit, hnewkey.symm⟩
+          have hss : ∀ r ∈ (if p' = p then (if back then c.queueRows p ++ [new] else new :: c.queueRows p)
+              else c.queueRows p'), r ∈ c.rows ++ [new] := by
+            intro r hr'
+            rcases hXsub p' r hr' with h | ⟨-, rfl⟩
+            · rw [queueRows_eq] at h; exact List.mem_append_left _ (mem_qrows.1 h).1
+            · simp
+          intro x hx y hy hxy
+          exact rows_num_inj hU hNN p' hss hkk x hx y hy (congrArg Item.num hxy)
+        · intro x _ hgx
+          exact (hgexp x hgx).1
+      refine ⟨hO, ⟨?_, hr.wf, hr.ord, ?_⟩, ?_, hC, hfresh⟩
       · -- the queues correspond
         intro p'
-        show _ = (q.queues.put p _).get p'
-        rw [get_put, hAbs p', ← hr.queues p']
+        show Thinned now _ ((q.queues.put p _).get p')
+        rw [get_put]
+        refine (hAbs p').trans ?_
         by_cases hp : p' = p
-        · subst hp; simp
+        · subst hp
+          rw [if_pos rfl, if_pos rfl]
+          exact ((hr.queues p').mono hn).add _ (by
+            show Spec.Entry.expired now (entryOf pl (ttl.map (now + ·)) tag) = false
+            have : (entryOf pl (ttl.map (now + ·)) tag).expired now = expired now new := by
+              rw [← hentnew]; rfl
+            rw [this]; exact hnewlive) back
         · rw [if_neg hp, if_neg (Ne.symm hp)]
+          exact (hr.queues p').mono hn
       · -- the dictionary part: only expired rows of ordinary keys may be gone
         intro k hk
         rw [holdsKey_iff]
@@ -331,23 +306,8 @@ theorem qr_push_step (c : Cache) (q : QSpec.State) (n : Nat) (clock now : Int) (
         have hmemq : ∀ p', ∀ r ∈ c'.queueRows p', r ∈ c.queueRows p' ∨ (p' = p ∧ r = new) := by
           intro p' r hr'
           rw [hQ p'] at hr'
-          by_cases hp : p' = p
-          · subst hp
-            simp only [if_true] at hr'
-            cases back with
-            | true =>
-              simp only [if_true] at hr'
-              rcases List.mem_append.1 hr' with h | h
-              · exact .inl h
-              · exact .inr ⟨rfl, List.mem_singleton.1 h⟩
-            | false =>
-              simp only [Bool.false_eq_true, if_false] at hr'
-              rcases List.mem_cons.1 hr' with h | h
-              · exact .inr ⟨rfl, h⟩
-              · exact .inl h
-          · rw [if_neg hp] at hr'; exact .inl hr'
-        refine ⟨hg', by rw [hC]; exact hok.pol, by rw [hC]; exact hok.page, ?_, ?_, ?_,
-          ?_, ?_, ?_⟩
+          exact hXsub p' r (List.mem_filter.1 hr').1
+        refine ⟨hg', by rw [hC]; exact hok.pol, by rw [hC]; exact hok.page, ?_, ?_, ?_, ?_, ?_⟩
         · intro p' r hr'
           rcases hmemq p' r hr' with h | ⟨hp, rfl⟩
           · exact hok.qok p' r h
@@ -366,23 +326,14 @@ theorem qr_push_step (c : Cache) (q : QSpec.State) (n : Nat) (clock now : Int) (
           have := hok.originN
           constructor <;> omega
         · intro p' r hr'
+          have hrc' : r ∈ c'.rows := by rw [queueRows_eq] at hr'; exact (mem_qrows.1 hr').1
+          have e0 : entryOfRow c' r = entryOfRow s1 r := congrArg Item.ent (hitem' r hrc')
           rcases hmemq p' r hr' with h | ⟨hp, rfl⟩
-          · have hi := hitemold p' r h
-            have : entryOfRow c' r = entryOfRow c r := congrArg Item.ent hi
-            rw [this]
+          · have : entryOfRow s1 r = entryOfRow c r := congrArg Item.ent (hitemold p' r h)
+            rw [e0, this]
             exact hok.readable p' r h
-          · rw [entryOfRow_eq, hentnew]
+          · rw [e0, entryOfRow_eq, hentnew]
             exact qr_place_readable E _ _ v read pl hpl _ _
-        · rw [hC]
-          rcases hok.quiet with h0 | h0
-          · exact .inl h0
-          · rcases hq with h0' | h0'
-            · exact .inl h0'
-            · right
-              intro p' r hr'
-              rcases hmemq p' r hr' with h | ⟨-, rfl⟩
-              · exact h0 p' r h
-              · rw [hnewexp, h0']; rfl
     · rw [if_neg hb]
       have hb' : (({ c0 with expT := ttl.map (now + ·), tag := tag } : Cols).bindable &&
           bindable (queueKey p num)) = false := by
@@ -442,6 +393,7 @@ theorem qr_push_step (c : Cache) (q : QSpec.State) (n : Nat) (clock now : Int) (
         rw [e1] at e2
         cases e2
         exact mem_of_fileGet hct
-      exact ⟨qrefines_shrunk_id hg hr hn hsh (fun _ _ => rfl), hok.mono.shrunk hsh, hsh.cfg⟩
+      exact ⟨qloose_shrunk_id hg hr hn hsh (fun _ _ => rfl), hok.mono.shrunk hsh, hsh.cfg, hfresh⟩
+
 
 end DC.Cache
